@@ -215,6 +215,23 @@ def check_case(ctx, text, vals, whole=None, tags=()):
     if d:
         ctx.violation(common.diff_key(d), "instance vs substituted script: " + common.diff_text(d), witness)
         return
+    # 2b. the same loaded template instantiated again with other values (each call must stand alone)
+    full2 = {}
+    for k_, v_ in full.items():
+        full2[k_] = [[x * 1.5 + 0.25 for x in row] for row in v_] if isinstance(v_, list) else (v_ * 1.5 + 0.25)
+    sub2_text = substitute(text, full2)
+    k3 = common.classify(sub2_text)
+    if k3[0] == "ok" and well_conditioned(k3[1]):
+        try:
+            inst2 = prog(**full2)
+        except Exception as e:
+            return ctx.violation("second-call-raises:" + common.exc_key(e), "the second instantiation of the same template raised %s" % common.exc_text(e), dict(witness, vals2=full2))
+        sub2, exc = common.real_loads(sub2_text)
+        if exc is None:
+            d = content.diff_real(content.program_content(inst2), content.program_content(sub2), cfg, variables=True, skip=("parameters",))
+            if d:
+                return ctx.violation("second-call:" + common.diff_key(d), "second instantiation (values %s) vs substituted script: %s" % (full2, common.diff_text(d)), dict(witness, vals2=full2))
+            ctx.observe("second instantiation compared")
     # 3. a missing value is refused with ValueError
     drop = sorted(full)[ctx_choice(text, len(full))]
     partial = {k: v for k, v in full.items() if k != drop}
